@@ -807,6 +807,8 @@ where
         src: LiveEvents<'a>, // borrows from `reader`
         cfg: crate::de::Cfg,
         finished: bool,
+        /// An I/O error noticed while skipping the rest of a failed document; yielded as the last item.
+        deferred_io_error: Option<Error>,
         _marker: std::marker::PhantomData<T>,
     }
 
@@ -818,6 +820,9 @@ where
         type Item = Result<T, Error>;
 
         fn next(&mut self) -> Option<Self::Item> {
+            if let Some(e) = self.deferred_io_error.take() {
+                return Some(Err(e));
+            }
             if self.finished {
                 return None;
             }
@@ -851,6 +856,7 @@ where
                                 // current document and try to recover at the next document boundary.
                                 if !self.src.skip_to_next_document() {
                                     self.finished = true;
+                                    self.deferred_io_error = self.src.take_io_error();
                                 }
                                 return Some(Err(e));
                             }
@@ -901,6 +907,7 @@ where
         src,
         cfg,
         finished: false,
+        deferred_io_error: None,
         _marker: std::marker::PhantomData,
     }
 }
@@ -1189,6 +1196,8 @@ where
         src: LiveEvents<'a>, // borrows from `reader`
         cfg: crate::de::Cfg,
         finished: bool,
+        /// An I/O error noticed while skipping the rest of a failed document; yielded as the last item.
+        deferred_io_error: Option<Error>,
         _marker: std::marker::PhantomData<T>,
     }
 
@@ -1199,6 +1208,9 @@ where
         type Item = Result<T, Error>;
 
         fn next(&mut self) -> Option<Self::Item> {
+            if let Some(e) = self.deferred_io_error.take() {
+                return Some(Err(e));
+            }
             if self.finished {
                 return None;
             }
@@ -1232,6 +1244,7 @@ where
                                 // current document and try to recover at the next document boundary.
                                 if !self.src.skip_to_next_document() {
                                     self.finished = true;
+                                    self.deferred_io_error = self.src.take_io_error();
                                 }
                                 return Some(Err(e));
                             }
@@ -1282,6 +1295,7 @@ where
         src,
         cfg,
         finished: false,
+        deferred_io_error: None,
         _marker: std::marker::PhantomData,
     }
 }
@@ -1924,6 +1938,8 @@ where
         src: LiveEvents<'a>, // borrows from `reader`
         cfg: crate::de::Cfg,
         finished: bool,
+        /// An I/O error noticed while skipping the rest of a failed document; yielded as the last item.
+        deferred_io_error: Option<Error>,
         _marker: std::marker::PhantomData<T>,
     }
 
@@ -1934,6 +1950,9 @@ where
         type Item = Result<T, Error>;
 
         fn next(&mut self) -> Option<Self::Item> {
+            if let Some(e) = self.deferred_io_error.take() {
+                return Some(Err(e));
+            }
             if self.finished {
                 return None;
             }
@@ -1964,6 +1983,7 @@ where
                             // If no next document is found, mark as finished.
                             if !self.src.skip_to_next_document() {
                                 self.finished = true;
+                                self.deferred_io_error = self.src.take_io_error();
                             }
                         }
                         return Some(res);
@@ -2000,6 +2020,7 @@ where
         src,
         cfg,
         finished: false,
+        deferred_io_error: None,
         _marker: std::marker::PhantomData,
     }
 }
